@@ -163,7 +163,10 @@ func c14Case(env *Env, tape *sim.Tape) *CaseOut {
 	// parameters on the media type of the call itself (charset, and inline=1, which the
 	// minifiers read): the error contract does not depend on them
 	if cmdRaw%16 == 5 && !isCmd && embed == 0 {
-		mt += []string{"; charset=utf-8", ";inline=1", "; inline=1; charset=utf-8"}[cmdRaw/16%3]
+		// (what a server puts behind a Content-Type: other encodings, quoted values, several
+		// parameters)
+		mt += []string{"; charset=utf-8", ";inline=1", "; inline=1; charset=utf-8", "; charset=utf-16", "; charset=UTF-16LE", "; charset=iso-8859-1",
+			"; charset=\"utf-32\"", "; charset=windows-1252", "; version=1.0; charset=us-ascii", "; charset=ucs-2; inline=1"}[cmdRaw/16%10]
 		out.stat("probe_media_type_parameters_on_the_call", 1)
 	}
 	if cmdRaw%64 == 9 && !isCmd && embed == 0 && doc.MT != MTEarly && (entry == EPlain || entry == EWriter || entry == EReader) {
@@ -318,10 +321,24 @@ func c14Case(env *Env, tape *sim.Tape) *CaseOut {
 		warm.Exec(nil, m)
 		out.stat("probe_second_call_on_same_registry", 1)
 	}
-	var sv *sim.Violation
-	var st RunStats
 	CurrentSite = fmt.Sprintf("%s:%s:%s", entryNames[entry], mt, fkNames[fk]) // what the hang watchdog reports
 	defer func() { CurrentSite = "" }()
+	if spools := doc.MT == MTCmdIn || doc.MT == MTCmdFile; (spools && krRaw/5%2 == 1) || (!isCmd && len(data) <= 4096 && krRaw/5%64 == 37) {
+		// a long-running process: 140 calls whose reader fails went before this one (each of
+		// them is judged by its own case elsewhere; here they are history). Whatever a failed
+		// call holds on to - a slot, a descriptor, a pooled buffer - the call after them still
+		// has to return, and with the same result as on a fresh registry. For commands only the
+		// ones that spool their input to a file: the reader fails before anything is spawned.
+		for i := 0; i < 140; i++ {
+			fr := sim.NewSimReader(nil, data)
+			fr.FailAt, fr.FailErr = i%(len(data)+1), sim.ErrInjectedRead
+			pre := &Op{Entry: EPlain, MT: mt, In: data, R: fr, W: sim.NewSimWriter(nil)}
+			pre.Exec(nil, m)
+		}
+		out.stat("probe_call_after_140_failed_calls", 1)
+	}
+	var sv *sim.Violation
+	var st RunStats
 	if entry == EPlain || entry == EMatch {
 		op.Exec(nil, m)
 	} else {
